@@ -170,7 +170,15 @@ func (b *OutboundBreaker) Do(f func() error) (bool, error) {
 	closed := total < b.limit
 	// log.Printf("OutboundBreaker total %d %v", total, closed)
 	if closed {
-		b.counts[0]++
+		if now.Equal(b.updated) {
+			// Exactly at the start of the current tick.
+			b.counts[1]++
+		} else {
+			// Somewhere inside the current tick: count it as
+			// if it happened at the end of this tick, so that
+			// it is never forgotten early.
+			b.counts[0]++
+		}
 	}
 	b.Unlock()
 	var err error
@@ -244,24 +252,52 @@ func (b *OutboundBreaker) init(limit int64, interval time.Duration) (*OutboundBr
 	b.limit = limit
 	b.interval = interval
 	b.ticks = ticks
-	b.counts = make([]int64, ticks)
+	// counts[0] holds the calls made during the current tick (they
+	// are aged as if made at its end), counts[1] the calls made
+	// exactly at its start, counts[2] those of the previous tick,
+	// and so on: ticks+1 entries cover the whole interval.
+	b.counts = make([]int64, ticks+1)
 	return b, nil
 }
 
 // slide moves the count entries down the line based on the current time.
+//
+// Time advances in whole ticks only: what is left over still counts
+// toward the next tick, so calls that arrive faster than a tick do not
+// keep the window from sliding.
 func (b *OutboundBreaker) slide(now time.Time) {
 	// Assumes lock
-	ns := now.Sub(b.updated).Nanoseconds()
-	resolution := b.interval.Nanoseconds() / int64(b.ticks)
-	ticks := int(ns / int64(resolution))
-	if len(b.counts) < ticks {
-		ticks = len(b.counts)
+	total := int64(0)
+	for _, count := range b.counts {
+		total += count
 	}
+	if total == 0 {
+		// Nothing to age.  Start the current tick now.
+		b.updated = now
+		return
+	}
+	resolution := b.interval.Nanoseconds() / int64(b.ticks)
+	if resolution <= 0 {
+		resolution = 1
+	}
+	elapsed := now.Sub(b.updated).Nanoseconds() / resolution
+	if elapsed <= 0 {
+		return
+	}
+	if int64(len(b.counts)) <= elapsed {
+		// Everything has aged out.
+		for i := range b.counts {
+			b.counts[i] = 0
+		}
+		b.updated = now
+		return
+	}
+	ticks := int(elapsed)
 	copy(b.counts[ticks:], b.counts)
 	for i := 0; i < ticks; i++ {
 		b.counts[i] = 0
 	}
-	b.updated = now
+	b.updated = b.updated.Add(time.Duration(elapsed * resolution))
 }
 
 // ComboBreaker is a bunch of Breakers considered as one.
